@@ -68,6 +68,11 @@ CHECKS = {
    text="Alias programs over ints, bins, refs, named/unnamed tuples, labels, partials, unions, tuple-guarded recursion and function types are compiled by the real front end; for every ordered pair: assignable => every enumerated member of A is a member of B; a shared enumerated value => overlap reported; members in/not in B must be in the intersection / complement; reflexivity; transitivity on triples; and the compiled graph must admit exactly the source type's enumerated values. Four non-recursive defects were repaired; the recursive-type defects are known findings.",
    design="§3 C09",
    note="No counter-example among values of depth <= 3/4 over a small atom pool; process types excluded; narrowing results' outermost cycles are read against the declared type (the compiler's own convention)."),
+ "C08": dict(
+   technique="runtime monitoring: exact finite membership oracle (source-level type semantics) around in-language type tests, run in four execution configurations and compared",
+   text="Literal values enumerated from generated alias programs are tested with `='t`, `=('t)x` and through a generic identity; accepted => inhabits the type as written; compile-time type contained in the target => accepted. Every program runs directly, tree-shaken, merged after 0-4 unrelated corpus programs and in a REPL session with aliases on an earlier line; the verdict vectors must agree. One defect class (recursive partials) is a known finding.",
+   design="§3 C08",
+   note="Function/process/resource types are not generated here; wider-static-type rejections are allowed (documented carve-out)."),
 }
 
 NOT_BUILT = "check not built yet in this round (work in progress; see DESIGN.md §6 build order)"
